@@ -1,4 +1,5 @@
 import datetime
+import decimal
 import functools
 import math
 import re
@@ -815,6 +816,9 @@ class ValueDecimal(Value):
 
     def __repr__(self):
         result = repr(self.value)
+        if "e" in result:
+            # the language has no exponent notation: write the digits out
+            result = format(decimal.Decimal(result), "f")
         if "." not in result:
             result += ".0"
         return result
